@@ -1,7 +1,7 @@
 \* C15 thorough simulation: <= 7 proposals, <= 3 in flight
 SPECIFICATION Spec
 CONSTANTS
-  Algs = {"sweep", "random", "dd_sweep", "dd_random", "dd_random2", "regevo", "hill", "hill2", "nsga2", "neat", "dd_regevo", "dd_hill_auto"}
+  Algs = {"sweep", "random", "dd_sweep", "dd_random", "dd_random2", "regevo", "hill", "hill2", "nsga2", "neat", "sched", "dd_regevo", "dd_hill_auto"}
   D = 3
   N = 7
   W = 3
